@@ -45,6 +45,7 @@ var (
 	big     = flag.Bool("big", false, "include the vectors with ~5000 arguments")
 	quiet   = flag.Bool("quiet", true, "silence the server logs")
 	policy  = flag.String("policy", "local_deletion", "expiration policy of the namespace and of the simulated replicas: local_deletion | wait_compact")
+	useV2   = flag.Bool("v2", false, "live server with use_redis_v2 (raw command proposed, namespace cut at apply)")
 	avoid   = flag.String("avoid", "", "comma separated signatures of OPEN known findings whose inputs are not executed (they would take the harness down)")
 )
 
@@ -176,7 +177,7 @@ func main() {
 	defer oo.Close()
 	defer vo.Close()
 	flushAll := func() { co.Flush(); io.Flush(); oo.Flush(); vo.Flush() }
-	oo.Printf("CFG\tpolicy=%s engine=%s\n", *policy, *engName)
+	oo.Printf("CFG\tpolicy=%s engine=%s v2=%v\n", *policy, *engName, *useV2)
 
 	// watchdog: no progress for 90 s (an engine lock that is never released, a close that waits for it ...)
 	// => dump the goroutines, name the phase in the journal and stop with exit code 6
@@ -199,7 +200,7 @@ func main() {
 			}
 		}
 	}()
-	ln, err := startNode(*port, *engName, *policy)
+	ln, err := startNode(*port, *engName, *policy, *useV2)
 	if err != nil {
 		fmt.Fprintln(stdout, "INCONCLUSIVE server start:", err)
 		os.Exit(3)
